@@ -144,6 +144,9 @@ def from_decimal(data: decimal.Decimal):
         if not data.as_tuple().exponent:
             # integer
             return int(data)
+        if data and data.copy_abs() < MIN_NORMAL_FLOAT:
+            # a float would underflow to 0.0 or lose digits in the subnormal range
+            return str(data)
         return float(data)
     # infinity / NaN
     return str(data)
@@ -171,6 +174,7 @@ def from_enum(en: Enum):
 
 MAX_SAFE_NUMBER = 9007199254740991
 MIN_SAFE_NUMBER = -9007199254740991
+MIN_NORMAL_FLOAT = decimal.Decimal(2) ** -1022   # smallest normal double, exactly
 
 
 def js_unsafe(num: Union[int, float, decimal.Decimal]):
